@@ -837,3 +837,27 @@ func init() {
 		return true
 	})
 }
+
+func init() {
+	defUF("unquote", []Sort{SStr}, []Sort{SBool, SStr}, func(a []any) []any {
+		r, err := strconv.Unquote(a[0].(string))
+		return []any{err == nil, r}
+	})
+	reg("strconv.Unquote", func(e *Engine, st *State, c *callCtx) bool {
+		s := c.str(e, st, 0)
+		r := e.ufCall(st, "unquote", s)
+		ok, v := r[0], r[1]
+		if !s.K {
+			e.sol.Assert(Implies(Lt(StrLen(s), KInt64(2)), Not(ok)))
+			e.sol.Assert(Implies(Not(ok), Eq(v, KStr(""))))
+		}
+		return e.branch(st, []Alt{
+			{Cond: ok, Tag: "Unquote=ok", Do: func(s2 *State) { c.ret(s2, TupleVal{v, IfaceVal{}}) }},
+			{Cond: Not(ok), Tag: "Unquote=err", Do: func(s2 *State) { c.ret(s2, TupleVal{KStr(""), e.newError(s2, KStr("invalid syntax"))}) }},
+		})
+	})
+	reg("internal/bytealg.IndexByteString", func(e *Engine, st *State, c *callCtx) bool {
+		c.ret(st, e.name(StrIndexOf(c.str(e, st, 0), StrFromCode(c.term(1)), KInt64(0))))
+		return true
+	})
+}
